@@ -49,6 +49,7 @@ pub fn explore<S: Clone>(
         }
     }
     if bound >= 2 {
+        visit(Visit { state: base, path: vec!["(honest base judged again after the single edits)"], classes: vec!["revisit-honest"] });
         for (i, s1) in &level1 {
             for e2 in edits.iter().filter(|e| e.structural) {
                 if let Some(s2) = (e2.f)(s1) {
@@ -60,6 +61,8 @@ pub fn explore<S: Clone>(
             }
         }
     }
+    // hidden state left behind by the edited calls (stale caches, memos) shows when the honest base is judged again
+    visit(Visit { state: base, path: vec!["(honest base judged again after all edits)"], classes: vec!["revisit-honest"] });
     (seen.len() as u64, transitions)
 }
 
